@@ -69,8 +69,10 @@ def gen_line(rng):
         ops = []
         for _ in range(rng.randint(2, 7)):
             r = rng.random()
-            if r < 0.15:
+            if r < 0.08:
                 ops.append(["adv", [rng.choice([32, 64, 64, 128]), 64]])    # a coarse grid: the two threads often wake at the same instant
+            elif r < 0.2:
+                ops.append(["tick", [rng.choice([32, 64, 64, 128]), 64]])   # real time passes while the other thread is suspended mid-operation (outside the lock)
             elif r < 0.5:
                 ops.append(["read", rng.choice("TPM")])
             elif r < 0.62:
@@ -94,6 +96,9 @@ SYSTEMATIC = [
     {"A": [["adv", [64, 64]], ["setscale", [2, 1]], ["read", "T"]], "B": [["adv", [64, 64]], ["read", "T"], ["read", "P"]]},
     {"A": [["adv", [64, 64]], ["pause"], ["adv", [64, 64]], ["resume"], ["read", "T"]], "B": [["adv", [64, 64]], ["read", "M"], ["adv", [64, 64]], ["read", "T"], ["export"]]},
     {"A": [["adv", [32, 64]], ["export"], ["read", "T"], ["setscale", [1, 2]]], "B": [["adv", [32, 64]], ["load", [100, 1], [200, 1], [300, 1]], ["read", "T"], ["read", "P"]]},
+    # real time passes, and the clock is re-anchored, while a reader is suspended somewhere inside its read
+    {"A": [["tick", [64, 64]], ["setscale", [2, 1]], ["tick", [64, 64]], ["export"], ["read", "T"]], "B": [["read", "T"], ["read", "P"], ["read", "M"], ["read", "T"]]},
+    {"A": [["pause"], ["tick", [64, 64]], ["resume"], ["tick", [32, 64]], ["setscale", [1, 2]]], "B": [["read", "M"], ["read", "T"], ["read", "P"], ["read", "M"]]},
 ]
 
 
